@@ -793,6 +793,24 @@ class Interp:
                 self.refine(unknown[0], p0, frame)
             return
         for (e, p) in guard_atoms(test, pol):
+            # isinstance(x, ProjectClass) true: x is an instance of that class from here on
+            if p and isinstance(e, ast.Call) and isinstance(e.func, ast.Name) and e.func.id == "isinstance" \
+                    and len(e.args) == 2 and isinstance(e.args[0], ast.Name) and e.args[0].id in frame.env:
+                tav = self.eval(e.args[1], frame)
+                classes = {r[1] for r in tav.ref if r[0] == "cls" and str(r[1]).startswith("P:")}
+                if tav.elts:
+                    classes = set()
+                    allp = True
+                    for x in tav.elts:
+                        cs = {r[1] for r in x.ref if r[0] == "cls" and str(r[1]).startswith("P:")}
+                        if not cs:
+                            allp = False
+                        classes |= cs
+                    if not allp:
+                        classes = set()
+                cur = frame.env[e.args[0].id]
+                if len(classes) == 1 and not cur.cls:
+                    frame.env[e.args[0].id] = cur.replace(cls=FS(classes))
             if isinstance(e, ast.Compare) and len(e.ops) == 1:
                 op = e.ops[0]
                 l, r = e.left, e.comparators[0]
